@@ -348,36 +348,28 @@ def scanBufCap : Nat := 4096
 /-- `FilePath.Write` item loop, for path data of at most `scanBufCap` bytes (one scanner buffer):
     `count` scans of `fileItemScanner`, each followed by `FilePathItem.Write` on a copy of the token.
     `fileItemScanner` never checks the declared length against the data: a declared length that
-    overruns the data makes the scanner fail with ErrAdvanceTooFar — `Scan` returns false and
-    `Bytes()` still holds the *previous* token, which is then decoded again (for every remaining
-    item) — or panics when the slice would exceed the buffer capacity.  `pos` = bytes consumed,
-    `prev` = previous token's name.  `itemName l` models `b[3 : Len+3]` (byte arithmetic before the fix). -/
-def pathDecodeItems (d : Bytes) : Nat → Nat → Option Bytes → Res (List Bytes)
-  | 0, _, _ => .ok []
-  | n + 1, pos, prev =>
+    overruns the data makes the scanner fail with ErrAdvanceTooFar (`Scan` returns false → error), or
+    panics when the token slice would exceed the buffer capacity.  `pos` = bytes consumed. -/
+def pathDecodeItems (d : Bytes) : Nat → Nat → Res (List Bytes)
+  | 0, _ => .ok []
+  | n + 1, pos =>
     let rem := d.length - pos
-    if rem < 3 then .err      -- no token: `fpi.Write(empty)` = "buflen too small"
+    if rem < 3 then .err      -- no token at EOF
     else
       let l := ((d.drop (pos + 2)).headD 0).toNat
       if 3 + l ≤ rem then
         let name := (d.drop (pos + 3)).take l
-        match pathDecodeItems d n (pos + 3 + l) (some name) with
+        match pathDecodeItems d n (pos + 3 + l) with
         | .ok is => .ok (name :: is)
         | r => r
       else if pos + 3 + l > scanBufCap then .panic
-      else
-        match prev with
-        | none => .err
-        | some name =>
-          match pathDecodeItems d n pos prev with
-          | .ok is => .ok (name :: is)
-          | r => r
+      else .err
 
 /-- `FilePath.Write`: fewer than 2 bytes: EOF is swallowed (0 items; 1 byte is ErrUnexpectedEOF = error). -/
 def pathDecode (b : Bytes) : Res (List Bytes) :=
   if b.length = 0 then .ok []
   else if b.length < 2 then .err
-  else pathDecodeItems (b.drop 2) (rd16 b) 0 none
+  else pathDecodeItems (b.drop 2) (rd16 b) 0
 
 -- ---------------------------------------------------------------- news records
 
